@@ -14,14 +14,19 @@ R(n) == <<n, 1>>
 Q(n, d) == Norm(n, d)
 Zero == <<0, 1>>
 One == <<1, 1>>
-Add(a, b) == Norm(a[1] * b[2] + b[1] * a[2], a[2] * b[2])
-Sub(a, b) == Norm(a[1] * b[2] - b[1] * a[2], a[2] * b[2])
-Mul(a, b) == Norm(a[1] * b[1], a[2] * b[2])
-Div(a, b) == Norm(a[1] * b[2], a[2] * b[1])      \* b # 0 is the caller's obligation
+\* sums and comparisons go through the least common denominator (keeps intermediates small)
+Add(a, b) == LET g == GCD(a[2], b[2]) IN Norm(a[1] * (b[2] \div g) + b[1] * (a[2] \div g), a[2] * (b[2] \div g))
+Sub(a, b) == LET g == GCD(a[2], b[2]) IN Norm(a[1] * (b[2] \div g) - b[1] * (a[2] \div g), a[2] * (b[2] \div g))
+\* products cancel across the two fractions before multiplying
+Mul(a, b) == LET g1 == GCD(Abs(a[1]), b[2])
+                 g2 == GCD(Abs(b[1]), a[2])
+             IN IF a[1] = 0 \/ b[1] = 0 THEN <<0, 1>>
+                ELSE Norm((a[1] \div g1) * (b[1] \div g2), (a[2] \div g2) * (b[2] \div g1))
+Div(a, b) == Mul(a, IF b[1] < 0 THEN <<-b[2], -b[1]>> ELSE <<b[2], b[1]>>)      \* b # 0 is the caller's obligation
 Neg(a) == <<-a[1], a[2]>>
 Sq(a) == Mul(a, a)
-Leq(a, b) == a[1] * b[2] <= b[1] * a[2]
-Lt(a, b) == a[1] * b[2] < b[1] * a[2]
+Leq(a, b) == LET g == GCD(a[2], b[2]) IN a[1] * (b[2] \div g) <= b[1] * (a[2] \div g)
+Lt(a, b) == LET g == GCD(a[2], b[2]) IN a[1] * (b[2] \div g) < b[1] * (a[2] \div g)
 IsZero(a) == a[1] = 0
 IsPos(a) == a[1] > 0
 RMax(a, b) == IF Leq(a, b) THEN b ELSE a
